@@ -35,7 +35,7 @@ func (a Any) completeIndexExprAtPos(ctx context.Context, pos hcl.Pos) []lang.Can
 		// we start a new completion to enable completion of
 		// references and functions.
 		lastTraversal := eType.Traversal[len(eType.Traversal)-1]
-		if _, ok := lastTraversal.(hcl.TraverseIndex); ok {
+		if idx, ok := lastTraversal.(hcl.TraverseIndex); ok && !idx.Key.IsKnown() {
 			expr := newEmptyExpressionAtPos(eType.Range().Filename, pos)
 			return newExpression(a.pathCtx, expr, cons).CompletionAtPos(ctx, pos)
 		}
